@@ -25,6 +25,7 @@ import (
 	"github.com/attestantio/vouch/util"
 	"github.com/holiman/uint256"
 	"github.com/shopspring/decimal"
+	e2types "github.com/wealdtech/go-eth2-types/v2"
 )
 
 type c09Relay struct {
@@ -311,4 +312,81 @@ func VerifC16_AuctionBadRelayAddress() {
 	vnd.Cover("C16.auction.bad-address-survived")
 	vnd.Assert(err == nil && res != nil && len(res.AllProviders) == 1, "C16.auction.other-relays-still-queried")
 	vnd.Assert(res.WinningParticipation != nil && res.WinningParticipation.Bid == good.bid, "C16.auction.good-relay-can-still-win")
+}
+
+// c09KeyedRelay is a relay that may announce a public key of its own.
+type c09KeyedRelay struct {
+	c09Relay
+	key *phase0.BLSPubKey
+}
+
+func (r *c09KeyedRelay) Pubkey() *phase0.BLSPubKey { return r.key }
+
+// VerifC09_Signature: two consecutive auctions on one strategy instance with
+// the same relay. When the relay's public key is known - from its
+// configuration or from the relay itself - the signature of its bid is verified
+// each time and the bid is passed on exactly when it verifies; a key of the
+// right length that cannot be decoded makes the relay's bid an error each time
+// (never a crash, also not on the second use); with no key known the bid is
+// taken unverified. (The BLS pairing check is an oracle with a symbolic outcome.)
+func VerifC09_Signature() {
+	ct := vstub.NewChainTime(0)
+	s := &Service{chainTime: ct, timeout: 2 * time.Second, relayPubkeys: map[phase0.BLSPubKey]*e2types.BLSPublicKey{}}
+	slotStart := uint64(ct.StartOfSlot(c09Slot).Unix())
+	bid := &builderspec.VersionedSignedBuilderBid{Version: consensusspec.DataVersionCapella, Capella: &buildercapella.SignedBuilderBid{
+		Message: &buildercapella.BuilderBid{Header: &capella.ExecutionPayloadHeader{FeeRecipient: bellatrix.ExecutionAddress{1}, Timestamp: slotStart, BlockHash: phase0.Hash32{9}, ExtraData: []byte{}},
+			Value: uint256.NewInt(7), Pubkey: phase0.BLSPubKey{5}},
+	}}
+	relay := &c09KeyedRelay{c09Relay: c09Relay{name: "relay-a", bid: bid}}
+	rc := &beaconblockproposer.RelayConfig{Address: "relay-a", MinValue: decimal.New(0, 0)}
+	known := false
+	if vnd.Bool("key-in-relay-configuration") {
+		rc.PublicKey = &phase0.BLSPubKey{0xa1}
+		known = true
+	}
+	if vnd.Bool("key-announced-by-relay") {
+		relay.key = &phase0.BLSPubKey{0xb2}
+		known = true
+	}
+	undecodable := false
+	if known && vnd.Bool("key-is-not-a-curve-point") {
+		undecodable = true
+		vnd.BLSInvalidKey((&phase0.BLSPubKey{0xa1})[:])
+		vnd.BLSInvalidKey((&phase0.BLSPubKey{0xb2})[:])
+	}
+	for round := 0; round < 2; round++ {
+		respCh := make(chan *builderBidResponse, 1)
+		errCh := make(chan *builderBidError, 1)
+		before := vnd.BLSVerifyCalls()
+		s.builderBid(context.Background(), relay, respCh, errCh, c09Slot, phase0.Hash32{}, phase0.BLSPubKey{}, rc)
+		var resp *builderBidResponse
+		var berr *builderBidError
+		select {
+		case resp = <-respCh:
+		default:
+		}
+		select {
+		case berr = <-errCh:
+		default:
+		}
+		vnd.Assert((resp != nil) != (berr != nil), "C09.signature.one-answer-per-relay")
+		passedOn := resp != nil && resp.bid == bid
+		switch {
+		case !known:
+			vnd.Cover("C09.signature.no-key-known")
+			vnd.Assert(vnd.BLSVerifyCalls() == before && passedOn, "C09.signature.no-key-no-verification-bid-taken")
+		case undecodable:
+			vnd.Cover("C09.signature.undecodable-key")
+			vnd.Assert(!passedOn && berr != nil, "C09.signature.undecodable-key-is-an-error-every-time")
+		default:
+			vnd.Assert(vnd.BLSVerifyCalls() == before+1, "C09.signature.verified-when-a-key-is-known")
+			valid := vnd.BLSVerifyResult(before)
+			if valid {
+				vnd.Cover("C09.signature.valid")
+			} else {
+				vnd.Cover("C09.signature.invalid")
+			}
+			vnd.Assert(passedOn == valid, "C09.signature.bid-passed-on-exactly-when-its-signature-verifies")
+		}
+	}
 }
